@@ -61,6 +61,16 @@ CHECKS = {
               'modal proofs checked at call time.'),
         design_ref='DESIGN.md section 5 C06',
         note='Trusted: the node walk. Exploration: absence beyond the enumerated histories is not established.'),
+    'C01': dict(
+        category='exploration',
+        technique='Hypothesis model-first generation (countermodel by construction) + step-by-step soundness-lemma tracking against reference semantics',
+        text=('Arguments are generated together with a reference countermodel, so every case can falsify soundness; the real '
+              'prover is run under random option combinations and tie-break schedules (guarded hash-order hook) and must '
+              'not report valid; in addition the countermodel is followed through the proof and every rule application must '
+              'keep a branch it satisfies, which localises an unsound step even when other open branches mask it.'),
+        design_ref='DESIGN.md section 5 C01, section 3',
+        note=('Trusted: vf/refsem.py. Exploration only: models have <= 3 worlds / constants, sentences depth <= 3; limited '
+              'outcomes are inconclusive. B3E-family biconditional rules are open known findings.')),
 }
 
 NOT_YET = 'check not built yet in this session (planned, see DESIGN.md section 5); no claim is made'
